@@ -12,7 +12,6 @@ KNOWN_CLASSES = {
     "shared-id": "the built-in cron keys jobs by rule id only: scheduled rules that share an id in two locations share one job",
     "cascade": "a scheduled rule deleted by a deleteWith cascade keeps its cron job (lower-case rem calls no hook)",
     "expiry": "a scheduled rule that expires keeps its cron job (expiry calls no hook)",
-    "linear-clear": "LinearState.Clear calls no rem hook: the cleared location's jobs stay registered",
     "overwrite-unscheduled": "overwriting a scheduled rule by a fact/rule without schedule leaves the old job registered",
     "linear-load": "LinearState.Load calls no add hook: with an ephemeral cron a reloaded location does not register its scheduled rules again",
     "oneshot-lost": "a one-shot job that fires while its rule is disabled / whose evaluation is cut short is consumed by the cron while the rule stays stored, unregistered",
@@ -40,10 +39,6 @@ PROPOSED = [
      "witness": {"kind": "c15.hist", "mode": "real", "state": "linear", "locs": ["A"], "ops": [
          {"op": "addRule", "loc": "A", "id": "r", "rule": R("0 0 1 1 *"), "expiresIn": 2},
          {"op": "sleep", "ms": 3100}, {"op": "getRule", "loc": "A", "id": "r"}]}},
-    {"property": "C15", "id": "C15-linear-clear", "class": "linear-clear",
-     "what": "LinearState.Clear runs no rem hook: every cron job of the cleared location stays registered (IndexedState.Clear removes them)",
-     "witness": {"kind": "c15.hist", "mode": "real", "state": "linear", "locs": ["A"], "ops": [
-         {"op": "addRule", "loc": "A", "id": "r", "rule": R("0 0 1 1 *")}, {"op": "clear", "loc": "A"}]}},
     {"property": "C15", "id": "C15-overwrite", "class": "overwrite-unscheduled",
      "what": "a scheduled rule overwritten by a `when` rule (or a plain fact) with the same id keeps its cron job",
      "witness": {"kind": "c15.hist", "mode": "real", "state": "indexed", "locs": ["A"], "ops": [
@@ -61,6 +56,17 @@ PROPOSED = [
     {"property": "C15", "id": "C15-crolt-rem-url", "class": "crolt-rem-url",
      "what": "CroltSimple.Rem builds its URL with strings.Trim(CroltURL, \"/rem\") instead of appending /rem: the request never reaches crolt's /rem handler, so a persistent crolt job is never removed",
      "witness": {"kind": "c15.crolt", "urlSuffix": "/"}},
+]
+
+# witnesses of findings repaired in /repo: they stay in every run and must now agree with the model, which has no such class any more
+FORMER = [
+    # C15-linear-clear: LinearState.Clear (and Delete) ran no rem hook
+    {"kind": "c15.hist", "mode": "real", "state": "linear", "locs": ["A"], "ops": [
+        {"op": "addRule", "loc": "A", "id": "r", "rule": R("0 0 1 1 *")}, {"op": "clear", "loc": "A"}]},
+    {"kind": "c15.hist", "mode": "real", "state": "linear", "locs": ["A", "B"], "ops": [
+        {"op": "addRule", "loc": "A", "id": "r", "rule": R("0 0 1 1 *")}, {"op": "addRule", "loc": "B", "id": "q", "rule": R("+1h")},
+        {"op": "addFact", "loc": "A", "id": "f", "fact": {"k": 1}}, {"op": "clear", "loc": "A"},
+        {"op": "tick", "loc": "A", "id": "r"}, {"op": "tick", "loc": "B", "id": "q"}]},
 ]
 
 
@@ -357,6 +363,9 @@ def main():
         if f["witness"]["kind"] == "c15.hist":
             c = dict(copy.deepcopy(f["witness"]), cron={"persistent": False, "byLoc": False}, family="witness")
             (slow if any(o["op"] == "sleep" for o in c["ops"]) else fast).append(c)
+    for w in FORMER:
+        fast.append(dict(copy.deepcopy(w), cron={"persistent": False, "byLoc": False}, family="former"))
+        fast.append(dict(copy.deepcopy(w), cron={"persistent": False, "byLoc": True}, mode="rec", family="former"))
     for _ in range(n_mixed):
         fast.append(gen_c15.history(rng, nops=rng.randint(6, 24 if T else 16)))
     for _ in range(n_plain):
